@@ -612,10 +612,15 @@ func (a *AddrManager) changeRemark(dbTransaction db.DBTransaction, newRemark str
 			return err
 		}
 	}
+	return nil
+}
+
+// setRemark updates the in-memory remark; it is called once the transaction
+// that stored the remark has been committed.
+func (a *AddrManager) setRemark(newRemark string) {
 	a.mu.Lock()
 	a.remark = newRemark
 	a.mu.Unlock()
-	return nil
 }
 
 func (a *AddrManager) destroy(dbTransaction db.DBTransaction) error {
